@@ -112,20 +112,24 @@ DeChecks(e, m) ==
          << "de.consumed", (e.s.ok /\ x.ok) => e.s.used = x.used >>,
          << "de.tree", (e.s.ok /\ x.ok) => TreeOf(e.s.t) = t >>,
          << "de.bytes_accept", e.nb.ok = x.ok >>,
-         << "de.bytes_tree", (e.nb.ok /\ x.ok) => TreeOf(e.nb.t) = t >> >>
+         << "de.bytes_tree", (e.nb.ok /\ x.ok) => TreeOf(e.nb.t) = t >>,
+         << "de.mem_stream", Has(e, "mem_s") => MemOk(e.mem_s, MemBoundFor(e.b, x)) >>,
+         << "de.mem_bytes", Has(e, "mem_nb") => MemOk(e.mem_nb, MemBoundFor(e.b, x)) >> >>
 
 TriplesChecks(e, m) ==
   LET x == DResult(m.d)
   IN  << << "triples.accept", e.ok = x.ok >>,
          << "triples.consumed", (e.ok /\ x.ok) => e.used = x.used >>,
          << "triples.list", (e.ok /\ x.ok) => e.tr = Triples(x.node) >>,
-         << "triples.hash", (e.ok /\ x.ok /\ Has(e, "h")) => e.h = TreeHash(NodeTree(x.node)) >> >>
+         << "triples.hash", (e.ok /\ x.ok /\ Has(e, "h")) => e.h = TreeHash(NodeTree(x.node)) >>,
+         << "triples.mem", Has(e, "mem") => MemOk(e.mem, MemBoundFor(e.b, x)) >> >>
 
 HashChecks(e, m) ==
   LET x == DResult(m.d)
   IN  << << "hash.accept", e.ok = x.ok >>,
          << "hash.consumed", (e.ok /\ x.ok) => e.used = x.used >>,
-         << "hash.value", (e.ok /\ x.ok) => e.h = TreeHash(NodeTree(x.node)) >> >>
+         << "hash.value", (e.ok /\ x.ok) => e.h = TreeHash(NodeTree(x.node)) >>,
+         << "hash.mem", Has(e, "mem") => MemOk(e.mem, MemBoundFor(e.b, x)) >> >>
 
 \* C16: for inputs the decoder accepts, canonical <=> whole input is one tree whose
 \* re-serialization reproduces it.  For inputs it refuses the verdict of the machine
@@ -133,12 +137,15 @@ HashChecks(e, m) ==
 CanonChecks(e, m) ==
   LET x == DResult(m.d)
   IN  << << "canon.definition", x.ok => (e.v <=> CanonicalByDefinition(e.b, x)) >>,
-         << "canon.machine", e.v = (m.c.st = "true") >> >>
+         << "canon.machine", e.v = (m.c.st = "true") >>,
+         << "canon.mem", Has(e, "mem") => MemOk(e.mem, MemBoundFor(e.b, x)) >> >>
 
 LenbChecks(e, m) ==
   LET x == DResult(m.d)
   IN  << << "lenb.trusted", ResOf(e.trusted) = [ok |-> m.t.st = "ok", v |-> IF m.t.st = "ok" THEN m.t.pos ELSE 0] >>,
-         << "lenb.untrusted", x.fe \/ ResOf(e.untrusted) = [ok |-> x.ok, v |-> x.used] >> >>
+         << "lenb.untrusted", x.fe \/ ResOf(e.untrusted) = [ok |-> x.ok, v |-> x.used] >>,
+         << "lenb.mem_trusted", Has(e, "mem_t") => MemOk(e.mem_t, MemBoundFor(e.b, x)) >>,
+         << "lenb.mem_untrusted", Has(e, "mem_u") => MemOk(e.mem_u, MemBoundFor(e.b, x) + AllocatorReserve) >> >>
 
 \* C15 converse: decode, re-serialize; when the library itself judges the input canonical
 \* (e.canon) the result must be exactly the consumed bytes
@@ -152,7 +159,7 @@ ReserChecks(e, m) ==
 MInfo(e, m) ==
   LET x == DResult(m.d)
   IN  [dec_ok |-> x.ok, used |-> x.used, fe |-> x.fe, canon |-> m.c.st = "true",
-       by_def |-> CanonicalByDefinition(e.b, x)]
+       by_def |-> CanonicalByDefinition(e.b, x), mem_bound |-> MemBoundFor(e.b, x)]
 
 ---------------------------------------------------------------------------
 (* summaries of inputs TLC cannot hold *)
@@ -235,6 +242,9 @@ Check(line, e, m) ==
     [] e.ev = "canon" -> Verdict(line, e, CanonChecks(e, m), MInfo(e, m))
     [] e.ev = "lenb" -> Verdict(line, e, LenbChecks(e, m), MInfo(e, m))
     [] e.ev = "reser" -> Verdict(line, e, ReserChecks(e, m), MInfo(e, m))
+    [] e.ev = "crash" -> \* the process running the call died (totality); e.overalloc: it was refused > 1 GiB
+                         Report([line |-> line, ev |-> "crash", what |-> << "crash" >>,
+                                 info |-> [fn |-> e.fn, overalloc |-> e.overalloc, of |-> e.of]])
     [] e.ev = "big" -> Verdict(line, e, BigChecks(e), [x |-> 0])
     [] e.ev = "bigser" -> Verdict(line, e, BigSerChecks(e), [x |-> 0])
     [] e.ev = "rep" -> Verdict(line, e, RepChecks(e), [x |-> 0])
@@ -242,7 +252,7 @@ Check(line, e, m) ==
 
 \* coverage counters: events per kind, decode outcomes, where refused limits fell, abstentions
 CovKeys == { "ser", "len", "limit", "de", "triples", "hash", "canon", "lenb", "reser", "big", "bigser", "rep",
-             "other", "de:ok", "de:err", "de:fe", "canon:true", "canon:false", "abstain:lenb-backref",
+             "crash", "other", "de:ok", "de:err", "de:fe", "canon:true", "canon:false", "abstain:lenb-backref",
              "limit@cons-marker", "limit@atom-prefix", "limit@atom-body", "limit@backref-marker",
              "limit@trailing", "limit@fits", "machine-steps" }
 RECURSIVE BumpAll(_, _, _)
